@@ -58,6 +58,8 @@ class Gen:
                 'plan': {}}
         if node['mode'] in ('inline', 'process', 'thread_tag', 'async_tagged') and self.rng.random() < 0.15:
             node['tag_style'] = 'str'       # tags spelled as plain strings
+        elif node['mode'] == 'async_tagged' and self.rng.random() < 0.5:
+            node['tag_style'] = self.rng.choice(['coro_thread', 'coro_process'])     # a coroutine with a pool tag
         if self.rng.random() < 0.1:
             node['factory'] = True          # the class has a default_factory that node objects must come from
         node.update(kw)
@@ -435,6 +437,12 @@ class Gen:
             self.lazy_fail_shape(node, local_visible)
         for i in range(max(1, nparams)):
             pname = 'abcdef'[i]
+            if rng.random() < p.get('p_odd_names', 0.06):
+                # parameter names that are also local names inside the engine (`node` and `node_id` are reserved by the
+                # public signature of run_node(node, *args, node_id, **kwargs) and are not used: DESIGN assumptions)
+                odd = rng.choice(['error', 'result', 'dag', 'ctx', 'exc', 'loop', 'tags', 'data', 'name', 'key', 'value', 'cls'])
+                if odd not in [q for q, _ in node['params']]:
+                    pname = odd
             mark = self.make_mark(node, local_visible, depth, in_rec, in_cand)
             node['params'].append([pname, mark])
             if mark[0] == 'sw' and mark[1] is not None and rng.random() < p.get('p_dup', 0.04):
@@ -878,15 +886,18 @@ class Gen:
         return prog
 
 
-def add_generics(prog, rng, p=0.12):
-    """Turn some plain nodes into build_node() derivatives of a generic base class (same behaviour)."""
+def add_generics(prog, rng, p=0.12, only=None):
+    """Turn some plain nodes into build_node() derivatives of a generic base class (same behaviour).
+    only=<node id> with p=1.0: exactly that node."""
     import copy
     for nid in list(prog['order']):
         n = prog['nodes'][nid]
+        if only is not None and nid != only:
+            continue
         if nid == prog['input'] or n.get('kind', 'plain') != 'plain' or not n.get('params'):
             continue
-        if rng.random() < (p * 2 if n.get('start_of') else p):
-            base_id = 'G' + nid[1:]
+        if rng.random() < (p * 2 if n.get('start_of') else p) or (p >= 1.0 and nid == only):
+            base_id = 'G' + nid[1:] if nid[0] == 'N' else 'G' + nid
             base = copy.deepcopy(n)
             base['id'] = base_id
             base['generic_base'] = True
@@ -898,6 +909,11 @@ def add_generics(prog, rng, p=0.12):
             if n.get('mode') not in ('async', 'async_tagged') and rng.random() < 0.4:
                 n['attrs_tags'] = True       # build_node(attrs={'tags': ...}): the derived node sets the execution mode
                 base['attrs_tags_base'] = True
+            if n.get('retry') and rng.random() < 0.6:
+                # build_node(attrs={'attempts': ..., 'exceptions': ..., 'use_default': ...}): the retry settings belong to
+                # the derived node only, the generic base class keeps the defaults
+                n['attrs_retry'] = True
+                base['retry'] = None
             prog['order'].insert(prog['order'].index(nid), base_id)
     return prog
 
